@@ -153,22 +153,31 @@ func c16One(id int, seed int64, kind string) c16Case {
 			c.Skip = "LockAfter=1: any failed attempt locks"
 			return c
 		}
+		ku := "u1"
+		if kind == "unknown" && (id/4)%3 == 2 {
+			// the known account is one that has no usable password hash at all (created through OAuth2): it must
+			// answer a password login exactly like an account that does not exist
+			ku = "o1"
+			sd := SymStep{Kind: "seed", Seed: &SeedSpec{Name: "o1", PID: "oauth2;;google;;77", Confirmed: true, OProv: "google", OUID: "77"}}
+			script = append(script, sd)
+			r1.exec(sd)
+		}
 		if cfg.has("lock") {
 			// a few failures, then a pause longer than the window: counter high, not locked, attempt restarts the count
 			n := cfg.LockAfter - 1
 			for i := 0; i < n; i++ {
 				extra = append(extra, SymStep{Kind: "req", Req: &SymReq{Browser: "b2", Method: "POST", Route: "Login",
-					Form: []KV{{pf, Desc{K: "pid", U: "u1"}}, {"password", lit("Wrong-pass1!")}}}})
+					Form: []KV{{pf, Desc{K: "pid", U: ku}}, {"password", lit("Wrong-pass1!")}}}})
 			}
-			if u, ok := r1.w.st.users[r1.account("u1").PID]; ok && u.Locked.After(time.Now()) {
-				extra = append([]SymStep{{Kind: "unlock", U: "u1"}}, extra...)
+			if u, ok := r1.w.st.users[r1.account(ku).PID]; ok && u.Locked.After(time.Now()) {
+				extra = append([]SymStep{{Kind: "unlock", U: ku}}, extra...)
 			}
 			extra = append(extra, SymStep{Kind: "tick", D: int64(cfg.LockWindow) + 30})
 			if rng.Intn(2) == 0 {
 				extra = append(extra, SymStep{Kind: "tick", D: int64(cfg.LockDuration) + 30})
 			}
 		}
-		sa, sb = login(route, "ghost", lit("Wrong-pass1!")), login(route, "u1", lit("Wrong-pass1!"))
+		sa, sb = login(route, "ghost", lit("Wrong-pass1!")), login(route, ku, lit("Wrong-pass1!"))
 		c.Pre = "unknown-vs-wrong"
 	}
 	// decorations both requests carry alike: a return target, remember-me, stray parameters
@@ -224,7 +233,11 @@ func c16One(id int, seed int64, kind string) c16Case {
 		r2.exec(s)
 	}
 	if kind == "unknown" || kind == "unknown-otp" {
-		if u, ok := r1.w.st.users[r1.account("u1").PID]; ok && u.Locked.After(time.Now()) {
+		kn := "u1"
+		if _, ok := r1.acc["o1"]; ok {
+			kn = "o1"
+		}
+		if u, ok := r1.w.st.users[r1.account(kn).PID]; ok && u.Locked.After(time.Now()) {
 			c.Skip = "known account still locked"
 			return c
 		}
